@@ -38,6 +38,20 @@
 #include "upipe-modules/upipe_rate_limit.h"
 #include "upipe-modules/upipe_queue_sink.h"
 #include "upipe-modules/upipe_queue_source.h"
+#include "upipe-modules/upipe_dump.h"
+#include "upipe-modules/upipe_multicat_probe.h"
+#include "upipe-modules/upipe_discard_blocking.h"
+#include "upipe-modules/upipe_burst.h"
+#include "upipe-modules/upipe_m3u_reader.h"
+#include "upipe-ts/upipe_ts_check.h"
+#include "upipe-ts/upipe_ts_sync.h"
+#include "upipe-ts/upipe_ts_align.h"
+#include "upipe-ts/upipe_ts_decaps.h"
+#include "upipe-ts/upipe_ts_pes_decaps.h"
+#include "upipe-ts/upipe_ts_psi_merge.h"
+#include "upipe-ts/upipe_ts_pid_filter.h"
+#include "upipe-framers/upipe_h264_framer.h"
+#include "upipe-framers/upipe_h265_framer.h"
 
 #include <stdlib.h>
 #include <string.h>
@@ -82,6 +96,8 @@ struct desc {
     const struct nopt *opts;    /* numeric options with getter and setter (C20) */
     int nopts;
     bool flowdef_passthrough;   /* get_flow_def returns the definition that was set */
+    /* payload generator for pipes that parse their input (generic oracles only) */
+    size_t (*gen_payload)(struct st *, uint8_t *buf, size_t max, struct uref *u_attrs);
 };
 
 /* numeric option with a getter and a setter */
@@ -125,6 +141,8 @@ struct st {
     bool released;
     uint64_t next_seq;
     uint64_t inputs, outputs_expected;
+    unsigned gen_cc;            /* payload generators: continuity counter / position */
+    bool gen_start;             /* the generated payload begins a unit (block start attribute) */
 };
 static struct st S;
 
@@ -263,6 +281,132 @@ static const struct nopt opts_tl[] = { { "limit", o_tl_set, o_tl_get, g_time, NU
 static const struct nopt opts_buffer[] = { { "max_size", o_bmax_set, o_bmax_get, g_bsize, NULL }, { "low", o_blow_set, o_blow_get, g_bsize, NULL }, { "high", o_bhigh_set, o_bhigh_get, g_bsize, NULL } };
 static const struct nopt opts_rl[] = { { "limit", o_rl_set, o_rl_get, g_rl, NULL }, { "duration", o_rd_set, o_rd_get, g_rd, NULL } };
 
+
+/* --- more numeric options --- */
+static int o_rot_set(struct upipe *u, uint64_t v) { return upipe_multicat_probe_set_rotate(u, v >> 32, v & 0xffffffff); }
+static int o_rot_get(struct upipe *u, uint64_t *v) { uint64_t r = SENTINEL, o = SENTINEL; int e = upipe_multicat_probe_get_rotate(u, &r, &o); *v = (r << 32) | (o & 0xffffffff); return e; }
+static uint64_t g_rot(struct vh_rng *r) { uint64_t i = vh_chance(r, 1, 6) ? 0 : 1 + vh_below(r, 100000), o = vh_below(r, 5000); return (i << 32) | o; }
+static int v_rot(uint64_t v) { return (v >> 32) >= 1; }
+static int o_maxlen_set(struct upipe *u, uint64_t v) { return upipe_set_max_length(u, (unsigned)v); }
+static int o_maxlen_get(struct upipe *u, uint64_t *v) { unsigned m = (unsigned)SENTINEL; int e = upipe_get_max_length(u, &m); *v = m; return e; }
+static uint64_t g_maxlen(struct vh_rng *r) { return vh_below(r, 6); }
+static const struct nopt opts_rotate[] = { { "rotate", o_rot_set, o_rot_get, g_rot, v_rot } };
+static const struct nopt opts_maxlen[] = { { "max_length", o_maxlen_set, o_maxlen_get, g_maxlen, NULL } };
+
+/* --- payload generators for pipes that parse their input (generic oracles only) --- */
+static size_t gen_ts_packet(struct st *s, uint8_t *b, size_t max, struct uref *u)
+{
+    (void)max; (void)u;
+    size_t n = vh_chance(R, 1, 25) ? vh_below(R, 260) : 188;
+    for (size_t i = 0; i < n; i++) b[i] = (uint8_t)vh_rand(R);
+    if (n < 4) return n;
+    b[0] = vh_chance(R, 1, 30) ? (uint8_t)vh_rand(R) : 0x47;
+    int afc = vh_below(R, 100); afc = afc < 60 ? 1 : afc < 85 ? 3 : afc < 95 ? 2 : 0;
+    if (afc & 1) { if (vh_chance(R, 1, 15)) s->gen_cc += 1 + vh_below(R, 14); else if (!vh_chance(R, 1, 15)) s->gen_cc++; }
+    b[1] = (uint8_t)((vh_chance(R, 1, 8) ? 0x40 : 0) | (vh_chance(R, 1, 40) ? 0x80 : 0) | 0x01);
+    b[2] = 0x00;
+    b[3] = (uint8_t)((afc << 4) | (s->gen_cc & 0xf));
+    if ((afc & 2) && n > 5) {
+        int len = afc == 2 ? (vh_chance(R, 1, 10) ? (int)vh_below(R, 256) : 183) : (vh_chance(R, 1, 20) ? 184 + (int)vh_below(R, 72) : (int)vh_below(R, 183));
+        b[4] = (uint8_t)len;
+        if (len >= 1) b[5] = (uint8_t)(vh_rand(R) & (len >= 7 ? 0xff : 0xef));
+    }
+    return n;
+}
+/* arbitrary pieces of a TS stream (packets of 188 octets, occasional garbage) */
+static size_t gen_ts_stream(struct st *s, uint8_t *b, size_t max, struct uref *u)
+{
+    (void)u;
+    size_t n = vh_chance(R, 1, 10) ? vh_below(R, 3) : vh_chance(R, 1, 2) ? 188 * (1 + vh_below(R, 7)) : 1 + vh_below(R, 700);
+    if (n > max) n = max;
+    for (size_t i = 0; i < n; i++) {
+        if (vh_chance(R, 1, 3000)) s->gen_cc += 1 + vh_below(R, 187);     /* lost octets: resynchronisation */
+        b[i] = s->gen_cc % 188 == 0 ? 0x47 : (uint8_t)vh_rand(R);
+        s->gen_cc++;
+    }
+    return n;
+}
+static size_t gen_pes_payload(struct st *s, uint8_t *b, size_t max, struct uref *u)
+{
+    (void)max; (void)u;
+    size_t n = 1 + vh_below(R, 184);
+    for (size_t i = 0; i < n; i++) b[i] = (uint8_t)vh_rand(R);
+    if (vh_chance(R, 1, 3)) {
+        s->gen_start = true;
+        if (n >= 9 && !vh_chance(R, 1, 12)) {
+            b[0] = 0; b[1] = 0; b[2] = 1; b[3] = vh_chance(R, 1, 6) ? 0xbf : 0xe0;
+            size_t plen = vh_chance(R, 1, 4) ? 0 : vh_below(R, 600);
+            b[4] = (uint8_t)(plen >> 8); b[5] = (uint8_t)plen;
+            b[6] = 0x80; int pd = vh_below(R, 4); b[7] = (uint8_t)(pd << 6);
+            b[8] = vh_chance(R, 1, 10) ? (uint8_t)vh_rand(R) : (uint8_t)(pd == 2 ? 5 : pd == 3 ? 10 : vh_below(R, 4));
+            if (n >= 14 && pd >= 2) { b[9] = (uint8_t)((pd << 4) | 1 | (vh_rand(R) & 0x0e)); b[11] |= 1; b[13] |= 1; }
+        }
+    }
+    return n;
+}
+static size_t gen_psi_payload(struct st *s, uint8_t *b, size_t max, struct uref *u)
+{
+    (void)max; (void)u;
+    size_t n = 1 + vh_below(R, 184);
+    for (size_t i = 0; i < n; i++) b[i] = (uint8_t)vh_rand(R);
+    if (vh_chance(R, 1, 2)) {
+        s->gen_start = true;
+        size_t pos = 0;
+        b[pos++] = vh_chance(R, 1, 3) ? (uint8_t)vh_below(R, (uint32_t)n) : 0;     /* pointer_field */
+        pos += b[0];
+        while (pos + 3 <= n && vh_chance(R, 3, 4)) {
+            size_t len = vh_chance(R, 1, 5) ? vh_below(R, 1022) : vh_below(R, 40);
+            b[pos] = (uint8_t)vh_below(R, 255);
+            b[pos + 1] = (uint8_t)(0x30 | (vh_chance(R, 1, 2) ? 0x80 : 0) | (len >> 8));
+            b[pos + 2] = (uint8_t)len;
+            pos += 3 + len;
+        }
+        for (; pos < n; pos++) b[pos] = 0xff;
+    }
+    return n;
+}
+static size_t gen_m3u_text(struct st *s, uint8_t *b, size_t max, struct uref *u)
+{
+    (void)s; (void)u;
+    static const char *lines[] = { "#EXTM3U", "#EXT-X-VERSION:3", "#EXT-X-TARGETDURATION:10", "#EXTINF:9.5,title", "#EXTINF:10,",
+        "http://host/seg1.ts", "seg2.ts", "#EXT-X-STREAM-INF:PROGRAM-ID=1,BANDWIDTH=1280000,CODECS=\"avc1.42e00a,mp4a.40.2\",RESOLUTION=640x360",
+        "#EXT-X-MEDIA-SEQUENCE:7", "#EXT-X-ENDLIST", "#EXT-X-BYTERANGE:1000@2000", "#EXT-X-BYTERANGE:10",
+        "#EXT-X-KEY:METHOD=AES-128,URI=\"https://k/key\",IV=0x000102030405060708090a0b0c0d0e0f", "#EXT-X-KEY:METHOD=NONE",
+        "#EXT-X-MEDIA:TYPE=AUDIO,GROUP-ID=\"aac\",NAME=\"en\",DEFAULT=YES,AUTOSELECT=YES,LANGUAGE=\"en\",URI=\"a.m3u8\"",
+        "#EXT-X-PLAYLIST-TYPE:VOD", "#EXT-X-UNKNOWN:1", "", "# comment", "#EXTINF:", "#EXT-X-STREAM-INF:", "#EXT-X-KEY:", "#EXT-X-BYTERANGE:@" };
+    size_t n = 0;
+    int nl = vh_below(R, 5);
+    for (int i = 0; i < nl; i++) {
+        const char *l = lines[vh_below(R, sizeof(lines) / sizeof(lines[0]))];
+        size_t ln = strlen(l);
+        if (vh_chance(R, 1, 8)) ln = vh_below(R, (uint32_t)ln + 1);           /* line cut between buffers */
+        if (n + ln + 2 > max) break;
+        memcpy(b + n, l, ln); n += ln;
+        if (!vh_chance(R, 1, 8)) { if (vh_chance(R, 1, 4)) b[n++] = '\r'; b[n++] = '\n'; }
+    }
+    if (vh_chance(R, 1, 12) && n < max) b[n++] = (uint8_t)vh_rand(R);
+    return n;
+}
+static size_t gen_annexb(struct st *s, uint8_t *b, size_t max, struct uref *u)
+{
+    (void)max; (void)u;
+    bool h265 = !strcmp(s->d->name, "h265_framer");
+    size_t n = 0;
+    int nn = vh_below(R, 4);
+    for (int k = 0; k < nn; k++) {
+        if (vh_chance(R, 1, 2)) b[n++] = 0;
+        b[n++] = 0; b[n++] = 0; b[n++] = 1;
+        static const uint8_t t264[] = { 0x67, 0x68, 0x65, 0x41, 0x09, 0x06, 0x01, 0x0c };
+        static const uint8_t t265[] = { 0x40, 0x42, 0x44, 0x26, 0x02, 0x46, 0x4e, 0x00 };
+        b[n++] = h265 ? t265[vh_below(R, 8)] : t264[vh_below(R, 8)];
+        if (h265) b[n++] = 1;
+        size_t len = vh_below(R, 40);
+        for (size_t i = 0; i < len; i++) b[n++] = vh_chance(R, 1, 5) ? 0 : (uint8_t)vh_rand(R);
+    }
+    if (vh_chance(R, 1, 3)) { size_t len = vh_below(R, 30); for (size_t i = 0; i < len; i++) b[n++] = (uint8_t)vh_rand(R); }
+    return n;
+}
+
 /* generic numeric option setter: keeps the shadow, judges acceptance */
 static void ctl_nopt(struct st *s)
 {
@@ -306,6 +450,21 @@ static const struct desc catalogue[] = {
     { "time_limit", upipe_time_limit_mgr_alloc, K_HOLD, "block.", NULL, NULL, ctl_nopt, x_identity, false, true, opts_tl, 1, true },
     { "buffer", upipe_buffer_mgr_alloc, K_HOLD, "block.", "pic.", NULL, ctl_nopt, x_identity, false, true, opts_buffer, 3, true },
     { "rate_limit", upipe_rate_limit_mgr_alloc, K_HOLD, "block.", NULL, NULL, ctl_nopt, x_identity, false, true, opts_rl, 2, true },
+    { "dump", upipe_dump_mgr_alloc, K_IDENTITY, "block.", "pic.", NULL, NULL, x_identity, false, false, NULL, 0, true },
+    { "multicat_probe", upipe_multicat_probe_mgr_alloc, K_IDENTITY, "block.", NULL, NULL, ctl_nopt, x_identity, false, false, opts_rotate, 1, true },
+    { "discard_blocking", upipe_disblo_mgr_alloc, K_HOLD, "block.", NULL, NULL, ctl_nopt, x_identity, false, true, opts_maxlen, 1, true },
+    { "burst", upipe_burst_mgr_alloc, K_HOLD, "block.", "pic.", NULL, NULL, x_identity, false, true, NULL, 0, true },
+    /* pipes that parse their input: generic oracles (C01 ownership, C04 life cycle and negotiation) */
+    { "m3u_reader", upipe_m3u_reader_mgr_alloc, K_OTHER, "block.", "pic.", NULL, NULL, NULL, true, false, NULL, 0, false, gen_m3u_text },
+    { "ts_check", upipe_ts_check_mgr_alloc, K_OTHER, "block.", "pic.", NULL, NULL, NULL, true, false, NULL, 0, false, gen_ts_stream },
+    { "ts_sync", upipe_ts_sync_mgr_alloc, K_OTHER, "block.", "pic.", NULL, NULL, NULL, true, false, NULL, 0, false, gen_ts_stream },
+    { "ts_align", upipe_ts_align_mgr_alloc, K_OTHER, "block.", "pic.", NULL, NULL, NULL, true, false, NULL, 0, false, gen_ts_stream },
+    { "ts_decaps", upipe_ts_decaps_mgr_alloc, K_OTHER, "block.mpegts.", "block.", NULL, NULL, NULL, true, false, NULL, 0, false, gen_ts_packet },
+    { "ts_pid_filter", upipe_ts_pidf_mgr_alloc, K_OTHER, "block.mpegts.", "block.", NULL, NULL, NULL, true, false, NULL, 0, false, gen_ts_packet },
+    { "ts_pes_decaps", upipe_ts_pesd_mgr_alloc, K_OTHER, "block.mpegtspes.", "block.", NULL, NULL, NULL, true, false, NULL, 0, false, gen_pes_payload },
+    { "ts_psi_merge", upipe_ts_psim_mgr_alloc, K_OTHER, "block.mpegtspsi.", "block.", NULL, NULL, NULL, true, false, NULL, 0, false, gen_psi_payload },
+    { "h264_framer", upipe_h264f_mgr_alloc, K_OTHER, "block.h264.pic.", "pic.", NULL, NULL, NULL, true, false, NULL, 0, false, gen_annexb },
+    { "h265_framer", upipe_h265f_mgr_alloc, K_OTHER, "block.hevc.pic.", "pic.", NULL, NULL, NULL, true, false, NULL, 0, false, gen_annexb },
 };
 #define NCAT (int)(sizeof(catalogue) / sizeof(catalogue[0]))
 
@@ -359,15 +518,27 @@ static struct uref *make_flow_def(const char *def, uint64_t seed)
 
 static struct uref *make_input(struct in_rec *rec, uint64_t seq)
 {
-    int szc = vh_below(R, 20);
-    size_t n = szc == 0 ? 8 : szc == 1 ? 9 : szc < 4 ? 8 + vh_below(R, 8) : szc == 19 ? 1500 + vh_below(R, 600) : 8 + vh_below(R, 200);
+    static uint8_t gbuf[8192];
+    bool gen = S.d && S.d->gen_payload;
+    size_t n;
+    if (gen) { S.gen_start = false; n = S.d->gen_payload(&S, gbuf, 4096, NULL); }
+    else {
+        int szc = vh_below(R, 20);
+        n = szc == 0 ? 8 : szc == 1 ? 9 : szc < 4 ? 8 + vh_below(R, 8) : szc == 19 ? 1500 + vh_below(R, 600) : 8 + vh_below(R, 200);
+    }
     struct uref *u = uref_block_alloc(E.uref_mgr, E.block_mgr, (int)n);
     if (!u) abort();
-    uint8_t *w; int ws = -1;
-    uref_block_write(u, 0, &ws, &w);
-    for (size_t i = 0; i < n; i++) w[i] = (uint8_t)vh_rand(R);
-    for (int i = 0; i < 8; i++) w[i] = (uint8_t)(seq >> (56 - 8 * i));
-    uref_block_unmap(u, 0);
+    if (n) {
+        uint8_t *w; int ws = -1;
+        uref_block_write(u, 0, &ws, &w);
+        if (gen) memcpy(w, gbuf, n);
+        else {
+            for (size_t i = 0; i < n; i++) w[i] = (uint8_t)vh_rand(R);
+            for (int i = 0; i < 8; i++) w[i] = (uint8_t)(seq >> (56 - 8 * i));
+        }
+        uref_block_unmap(u, 0);
+    }
+    if (gen && S.gen_start) uref_block_set_start(u);
     /* segmented payloads */
     if (n > 12 && vh_chance(R, 1, 3)) {
         struct ubuf *tail = ubuf_block_split(u->ubuf, 4 + vh_below(R, (uint32_t)n - 8));
@@ -942,7 +1113,7 @@ static void exec_history(uint64_t seed, bool getters, struct hist_out *out)
     if (pooltrack_violations) vh_violation("c01:pool-discipline", "%s (pipe %s)", pooltrack_msg, s->d->name);
     long live = pooltrack_live();
     char key[96];
-    if (live != 0) { snprintf(key, sizeof(key), "c01:%s:objects-still-held", s->d->name);
+    if (live != 0) { pooltrack_dump_live(); snprintf(key, sizeof(key), "c01:%s:objects-still-held", s->d->name);
         vh_violation(key, "%ld pooled objects (urefs / buffers / dictionaries / pumps) are still held after the pipeline and all handles were released", live); }
     struct umem_mgr *umem_keep = umem_mgr_use(E.umem);
     cst = cumem_stats(umem_keep);
